@@ -327,6 +327,7 @@ func (ex *Exec) deepCopy(v Value) Value {
 		for _, e := range v.entries {
 			n.entries = append(n.entries, &mapEntry{k: ex.deepCopy(e.k), v: ex.deepCopy(e.v)})
 		}
+		n.reindex()
 		return n
 	case iface:
 		return iface{t: v.t, v: ex.deepCopy(v.v)}
